@@ -1,0 +1,78 @@
+//go:build verif
+
+package messageview
+
+// Contracts for govc (contract-based deductive verification, see /verif/DESIGN.md).
+// This file contains comments only and is compiled only with the build tag `verif`.
+
+// C15: snapshotting is semantically a no-op. Ghost model: a bytes.Buffer is tracked by its length (mvLen) and by
+// whether the bytes written so far end with the blank line that terminates an HTTP message part (mvEndsBlank);
+// ReadAll/NewReader/NopCloser are tied together by ghost records so that "the body handle was replaced by a reader over
+// exactly the bytes that were read from the old body" is a chain of equalities.
+
+//@ ghost field bytes.Buffer.mvLen int
+//@ ghost field bytes.Buffer.mvEndsBlank bool
+//@ ghost var mvReadSrc io.Reader
+//@ ghost var mvReadData []byte
+//@ ghost var mvReaderData []byte
+//@ ghost var mvReader *bytes.Reader
+//@ ghost var mvNopSrc io.Reader
+//@ ghost var mvNop io.ReadCloser
+
+//@ extern func fmt.Fprintf
+//@   modifies as(w, *bytes.Buffer).mvLen, as(w, *bytes.Buffer).mvEndsBlank
+//@   ensures as(w, *bytes.Buffer).mvLen >= old(as(w, *bytes.Buffer).mvLen) && !as(w, *bytes.Buffer).mvEndsBlank
+//@ extern func fmt.Fprint
+//@   modifies as(w, *bytes.Buffer).mvLen, as(w, *bytes.Buffer).mvEndsBlank
+//@   ensures as(w, *bytes.Buffer).mvLen >= old(as(w, *bytes.Buffer).mvLen)
+//@   ensures as(w, *bytes.Buffer).mvEndsBlank == (len(a) == 1 && a[0] == iface("\r\n"))
+//@ extern func (http.Header).WriteSubset
+//@   modifies as(w, *bytes.Buffer).mvLen, as(w, *bytes.Buffer).mvEndsBlank
+//@   ensures as(w, *bytes.Buffer).mvLen >= old(as(w, *bytes.Buffer).mvLen) && !as(w, *bytes.Buffer).mvEndsBlank
+//@ extern func (http.Header).Write
+//@   modifies as(w, *bytes.Buffer).mvLen, as(w, *bytes.Buffer).mvEndsBlank
+//@   ensures as(w, *bytes.Buffer).mvLen >= old(as(w, *bytes.Buffer).mvLen) && !as(w, *bytes.Buffer).mvEndsBlank
+//@ extern func (http.Header).Get
+//@ extern func (*bytes.Buffer).Len
+//@   ensures result == b.mvLen
+//@ extern func (*bytes.Buffer).Bytes
+//@   ensures len(result) == b.mvLen
+//@ extern func (*bytes.Buffer).Write
+//@   modifies b.mvLen, b.mvEndsBlank
+//@   ensures b.mvLen == old(b.mvLen) + len(p) && !b.mvEndsBlank
+//@ extern func httputil.NewChunkedWriter
+//@   ensures result != nil
+//@ extern iface io.Writer.Write
+//@ extern iface io.Closer.Close
+//@ extern func ioutil.ReadAll
+//@   modifies mvReadSrc, mvReadData
+//@   ensures mvReadSrc == r && mvReadData == result0
+//@ extern func bytes.NewReader
+//@   modifies mvReader, mvReaderData
+//@   ensures result != nil && mvReader == result && mvReaderData == b
+//@ extern func ioutil.NopCloser
+//@   modifies mvNop, mvNopSrc
+//@   ensures result != nil && mvNop == result && mvNopSrc == r
+
+//@ func (*MessageView).matchContentType
+//@   trusted
+//@   modifies nothing
+
+//@ func (*MessageView).SnapshotRequest
+//@   serves C15
+//@   safe index
+//@   requires mv != nil && req != nil && req.URL != nil
+//@   modifies req.Body, mv.message, mv.chunked, mv.compress, mv.bodyoffset, mv.traileroffset, mvReadSrc, mvReadData, mvReaderData, mvReader, mvNopSrc, mvNop
+//@   ensures[offsets-ordered] result == nil ==> 0 <= mv.bodyoffset && mv.bodyoffset <= mv.traileroffset && mv.traileroffset <= len(mv.message)
+//@   ensures[untouched-body-keeps-its-handle] result == nil && mv.traileroffset == mv.bodyoffset && old(req.Body) == nil ==> req.Body == old(req.Body)
+//@   ensures[replaced-body-reads-the-bytes-of-the-old-one] req.Body != old(req.Body) ==> req.Body == mvNop && mvNopSrc == iface(mvReader) && mvReaderData == mvReadData && mvReadSrc == old(req.Body)
+//@   at call 1 of Bytes before assert[chunked-message-ends-with-the-blank-line] mv.chunked ==> buf.mvEndsBlank
+
+//@ func (*MessageView).SnapshotResponse
+//@   serves C15
+//@   safe index
+//@   requires mv != nil && res != nil
+//@   modifies res.Body, mv.message, mv.chunked, mv.compress, mv.bodyoffset, mv.traileroffset, mvReadSrc, mvReadData, mvReaderData, mvReader, mvNopSrc, mvNop
+//@   ensures[offsets-ordered] result == nil ==> 0 <= mv.bodyoffset && mv.bodyoffset <= mv.traileroffset && mv.traileroffset <= len(mv.message)
+//@   ensures[replaced-body-reads-the-bytes-of-the-old-one] res.Body != old(res.Body) ==> res.Body == mvNop && mvNopSrc == iface(mvReader) && mvReaderData == mvReadData && mvReadSrc == old(res.Body)
+//@   at call 1 of Bytes before assert[chunked-message-ends-with-the-blank-line] mv.chunked ==> buf.mvEndsBlank
